@@ -105,7 +105,8 @@ EvalModes(prog, dyn, q) ==
       oS     == Outcome(RunB(Load(full, dyn, q), BoundD, TRUE))
       oA     == Outcome(RunB(WithQv(Load(Helpers, DynAll, ConjOf([j \in 1..Len(prog) |-> AssertGoal(prog[j], j)] \o <<q>>)), q),
                              BoundD + 3 * Len(prog) + 3, TRUE))
-      oM     == Outcome(RunB(WithQv(Load(prog \o Helpers \o UserPreds \o MI, DynAll, SV(q)), q), BoundM, TRUE))
+      bM     == IF 25 * oS.steps + 300 < BoundM THEN 25 * oS.steps + 300 ELSE BoundM
+      oM     == Outcome(RunB(WithQv(Load(prog \o Helpers \o UserPreds \o MI, DynAll, SV(q)), q), bM, TRUE))
       oQ     == Outcome(RunB(WithQv(Load(full, dyn, Call1(q)), q), BoundD + 2, TRUE))
       hasN   == q.t = "c" /\ Key(q) \in DynAll
       oN     == IF hasN THEN Outcome(RunB(WithQv(Load(full, dyn, C("call", <<A(q.n)>> \o q.a)), q), BoundD + 2, TRUE)) ELSE oS
@@ -114,7 +115,11 @@ EvalModes(prog, dyn, q) ==
       tcut   == \E j \in 1..Len(prog) : TCut(prog[j].b)
       modes  == <<[mode |-> "A", o |-> oA], [mode |-> "M", o |-> oM], [mode |-> "Q", o |-> oQ], [mode |-> "B", o |-> oB]>>
                 \o (IF hasN THEN <<[mode |-> "N", o |-> oN]>> ELSE <<>>)
-  IN [phase |-> "res", prog |-> prog, q |-> q, qv |-> VarSeq(q), dyn |-> dyn, oS |-> oS, tcut |-> tcut,
+  IN IF ~Finished(oS)    \* not emitted (as in MC_C07): the other modes are not run (a run to the bound is quadratic in the bound)
+     THEN [phase |-> "res", prog |-> prog, q |-> q, qv |-> VarSeq(q), dyn |-> dyn, oS |-> oS, tcut |-> tcut,
+           modes |-> <<>>, unfinished |-> <<>>, allok |-> oS.ok]
+     ELSE
+     [phase |-> "res", prog |-> prog, q |-> q, qv |-> VarSeq(q), dyn |-> dyn, oS |-> oS, tcut |-> tcut,
       modes |-> SelectSeq(modes, LAMBDA x : Finished(x.o)),
       unfinished |-> LET u == SelectSeq(modes, LAMBDA x : ~Finished(x.o)) IN [j \in 1..Len(u) |-> u[j].mode],
       allok |-> oS.ok /\ \A j \in 1..Len(modes) : modes[j].o.ok]
